@@ -72,7 +72,10 @@ def _base_workbook(r):
     r.shuffle(fs)
     for i, f in enumerate(fs[:r.randint(2, 6)]):
         cells[a1(2, i)] = f
-    return {'sheets': [{'title': r.choice(['S1', 'T 2', 'Лист']), 'cells': cells}]}
+    # titles end up in the generated text; a file is compiled from BYTES (PEP 263 coding cookie in the first two lines,
+    # BOM), a class object from a str - so some titles look like what a source-encoding declaration looks like
+    return {'sheets': [{'title': r.choice(['S1', 'T 2', 'Лист', 'Geocoding', 'Export encoding=latin-1', 'Encoding']),
+                        'cells': cells}]}
 
 
 def _variant(r, spec, same_size):
